@@ -277,6 +277,41 @@ func VerifPatchTwins() {
 	verifrt.Assert(len(got) == 3, "the patch list holds one patch per distinct outcome under every interleaving")
 }
 
+// VerifPatchRanges: patches whose requirements are ranges (as the relax strategy produces them).
+// Two attempts change the same first dependency to the same range and differ in a later one; the
+// ordering used for sorting and de-duplication has to tell them apart under every schedule.
+func VerifPatchRanges() {
+	base := []resolve.RequirementVersion{req("a", "^1.0.0"), req("b", "^1.0.0")}
+	fn := func(ids []string) common.StrategyResult {
+		verifrt.Yield()
+		res := common.StrategyResult{VulnIDs: ids}
+		switch strings.Join(ids, "+") {
+		case "A":
+			res.Resolved = resolved([]resolve.RequirementVersion{req("a", "^2.0.0"), req("b", "^2.0.0")}, "B")
+		case "B":
+			res.Resolved = resolved([]resolve.RequirementVersion{req("a", "^2.0.0"), req("b", "^3.0.0")}, "A")
+		default:
+			res.Err = common.ErrPatchImpossible
+		}
+		return res
+	}
+	orig := resolved(base, "A", "B")
+	want, err := common.ComputePatches(fn, orig, false)
+	verifrt.Assert(err == nil, "patch computation succeeds")
+	verifrt.ExploreSchedules(true)
+	got, err := common.ComputePatches(fn, orig, false)
+	verifrt.ExploreSchedules(false)
+	verifrt.Assert(err == nil, "patch computation succeeds under every schedule")
+	verifrt.Reach("ranges-computed")
+	verifrt.Assert(render(got) == render(want), "the patch list is the same under every goroutine interleaving")
+	verifrt.Assert(len(got) == 2, "the patch list holds one patch per distinct outcome under every interleaving")
+	sys := resolve.NPM.Semver()
+	for i := 0; i+1 < len(got); i++ {
+		verifrt.Assert(got[i].Compare(got[i+1], sys) < 0, "the patch list is sorted and has no duplicates")
+		verifrt.Assert(got[i+1].Compare(got[i], sys) > 0, "the patch ordering is antisymmetric")
+	}
+}
+
 // VerifTwin must be violated.
 func VerifTwin() {
 	base := []resolve.RequirementVersion{req("a", "1.0.0"), req("b", "1.0.0"), req("c", "1.0.0")}
